@@ -11,7 +11,7 @@ export CARGO_NET_OFFLINE=true
 for stem in "$@"; do
   prop=${stem%_*}
   feat=""; if [ "$prop" = "C20" ]; then feat="--features mock-core,mock-std,mock-tokio-1,mock-futures-io-0-3,mock-embedded-hal-1"; fi
-  cd $WT; git checkout -q -- .; git clean -qfd tests
+  cd $WT; git reset -q --hard HEAD; git clean -qfd tests
   cp /tmp/wt/out/${stem}_demo.rs tests/seeded_${stem}.rs
   # without patch
   cargo test --offline $feat --test seeded_${stem} > /tmp/wt/confirm/${stem}.clean.log 2>&1; clean_rc=$?
